@@ -6,29 +6,29 @@ package main
 func init() {
 	property(&Property{
 		ID:          "C01",
-		Rules:       []string{"STOP-SET", "LITERAL-COMPARE", "OFFSET-BASE", "KEY-AGREE", "PATTERN-VERB", "VERB-KEY", "LEAF-EXHAUSTED", "VARS-ONLY", "PATH-NORMALISE", "PATH-SOURCE", "SEP-CHECK", "KIND-VALUE-AGREE", "KIND-EXHAUSTIVE", "MATCH-SOURCE"},
-		Decides:     "Decides the comparisons and tables every sound matcher must contain: literal edges are followed by the same key they were created with; a variable pattern's literal arm rejects on kind or text mismatch; '*' stops at '/' and ':' and '**' at ':' only; each HttpRule pattern case maps to the HTTP method of the same name and the leaf lookup is keyed by the request's verb; a method is returned only when nothing but the end marker is left; captured text is bound only to the fields the template names; capture lengths use the right base. Also: path-bound integer/float/enum text is converted with the field's own kind and width (the KIND rules). Also: the method returned by the matchers comes from the trie walk of this request (or a memo keyed by both path and verb), never from a value remembered under less.",
+		Rules:       []string{"STOP-SET", "LITERAL-COMPARE", "OFFSET-BASE", "KEY-AGREE", "PATTERN-VERB", "VERB-KEY", "LEAF-EXHAUSTED", "VARS-ONLY", "PATH-NORMALISE", "PATH-SOURCE", "SEP-CHECK", "KIND-VALUE-AGREE", "KIND-EXHAUSTIVE", "MATCH-SOURCE", "LEX-EOF-ONLY"},
+		Decides:     "Decides the comparisons and tables every sound matcher must contain: literal edges are followed by the same key they were created with; a variable pattern's literal arm rejects on kind or text mismatch; '*' stops at '/' and ':' and '**' at ':' only; each HttpRule pattern case maps to the HTTP method of the same name and the leaf lookup is keyed by the request's verb; a method is returned only when nothing but the end marker is left; captured text is bound only to the fields the template names; capture lengths use the right base. Also: path-bound integer/float/enum text is converted with the field's own kind and width (the KIND rules). Also: the method returned by the matchers comes from the trie walk of this request (or a memo keyed by both path and verb), never from a value remembered under less. Also: the path lexer closes the token list only at the end of the input (no silent truncation at the token budget).",
 		NotDecided:  "that a matching path is matched only by covering templates in general (lexer character classes, ':' handling, capture text equality, numeric conversion results, trailing-slash normalisation) - i.e. the behavioural statement itself.",
 		Assumptions: commonAssumptions,
 	})
 	property(&Property{
 		ID:          "C02",
-		Rules:       []string{"LITERAL-FIRST", "BACKTRACK", "STOP-SET", "SORTED-VARS", "NO-MAP-ORDER", "OFFSET-BASE", "PATH-CHARSET", "COW-5", "COW-2"},
-		Decides:     "Decides the structural guarantees of the matcher's shape for every rule set and path: the literal edge is tried before any variable and wins if it succeeds; a failed sub-search never aborts the search (only a conversion failure does); variables are kept sorted by a strict order on a key that depends on the pattern only; nothing on the matching path ranges over a map; capture lengths are computed against the right base. Also: the lexer's path character class contains RFC 3986 pchar (without ':' and '%'); cloning a routing node never drops a field on an early return. Also: every writer loads, clones and publishes the routing snapshot under the writers' lock (a registration built on a stale snapshot erases the rules committed in between).",
+		Rules:       []string{"LITERAL-FIRST", "BACKTRACK", "STOP-SET", "SORTED-VARS", "NO-MAP-ORDER", "OFFSET-BASE", "PATH-CHARSET", "COW-5", "COW-2", "PATH-NORMALISE"},
+		Decides:     "Decides the structural guarantees of the matcher's shape for every rule set and path: the literal edge is tried before any variable and wins if it succeeds; a failed sub-search never aborts the search (only a conversion failure does); variables are kept sorted by a strict order on a key that depends on the pattern only; nothing on the matching path ranges over a map; capture lengths are computed against the right base. Also: the lexer's path character class contains RFC 3986 pchar (without ':' and '%'); cloning a routing node never drops a field on an early return. Also: every writer loads, clones and publishes the routing snapshot under the writers' lock (a registration built on a stale snapshot erases the rules committed in between). Also: the request path is only slash-normalised before matching (no path.Clean: '.' and '..' are legal segment texts).",
 		NotDecided:  "that every instantiation of every template matches (value-level: lexer character classes, token cap, '**' stopping at the first ':'); order independence of registration (duplicate detection, delRule).",
 		Assumptions: commonAssumptions,
 	})
 	property(&Property{
 		ID:          "C03",
-		Rules:       []string{"KIND-EXHAUSTIVE", "KIND-VALUE-AGREE", "WKT-TABLE", "BYTES-ALPHABETS", "NAME-RESOLUTION", "FIELDPATH-SINGULAR", "DECODE-THEN-PARAMS", "DESC-ROLE", "DECOMP-AGREE", "B64-BUF", "QUOTE-ESCAPES", "POOL-ESCAPE", "FD-LOCALISER"},
-		Decides:     "Decides that the per-kind conversion table is complete and type-correct against protoreflect's Kind/Value contract, that well-known types are listed and unmarshalled into their own type, that the bytes arm reaches all four base64 variants, that names resolve by JSON name then proto name, that field paths only walk singular message fields, that body/query/path resolution uses the request descriptor, that decompression and codec selection follow the request headers, and that parameters are applied after the body. Also: a base64 destination is sized by the encoding that decodes into it; URL text becomes a JSON string only through an escaping quoter. Also: the function that maps a stored field descriptor onto the handling backend's message goes by field number or name, never by declaration position; bytes handed to the handler are not left inside a pooled buffer.",
+		Rules:       []string{"KIND-EXHAUSTIVE", "KIND-VALUE-AGREE", "WKT-TABLE", "BYTES-ALPHABETS", "NAME-RESOLUTION", "FIELDPATH-SINGULAR", "DECODE-THEN-PARAMS", "DESC-ROLE", "DECOMP-AGREE", "B64-BUF", "QUOTE-ESCAPES", "POOL-ESCAPE", "FD-LOCALISER", "QUERY-EVERY-VALUE"},
+		Decides:     "Decides that the per-kind conversion table is complete and type-correct against protoreflect's Kind/Value contract, that well-known types are listed and unmarshalled into their own type, that the bytes arm reaches all four base64 variants, that names resolve by JSON name then proto name, that field paths only walk singular message fields, that body/query/path resolution uses the request descriptor, that decompression and codec selection follow the request headers, and that parameters are applied after the body. Also: a base64 destination is sized by the encoding that decodes into it; URL text becomes a JSON string only through an escaping quoter. Also: the function that maps a stored field descriptor onto the handling backend's message goes by field number or name, never by declaration position; bytes handed to the handler are not left inside a pooled buffer. Also: every value of every query key becomes a parameter or an error (none is skipped).",
 		NotDecided:  "that converted values equal the proto3 JSON reading (null, NaN, whitespace, base64 details), the round-trip law itself, codec behaviour.",
 		Assumptions: commonAssumptions,
 	})
 	property(&Property{
 		ID:          "C04",
 		Rules:       []string{"DESC-ROLE", "FIELDPATH-SINGULAR", "RESP-APPLIED", "CT-AGREE", "CE-AGREE", "OFFERS-AGREE", "MD-RESERVED-TABLE", "POOL-FOREIGN", "NEGOTIATE-ADMITS", "MD-GATE-OUT", "OWS-BEFORE-SEP"},
-		Decides:     "Decides that the header naming the body's type/encoding and the codec/compressor that produced the body are chosen by the same value on every path, that response_body is resolved with its own selector against the reply type and applied on send, that offers come from the very codec map that is indexed, and that handler metadata cannot override Content-Type/Content-Encoding. Also: content negotiation selects an offer only where the Accept entry admits it, on every path; the reserved test sees the key in the table's case. Also: the Accept parser tests for ';', ',' and 'q=' on input whose optional whitespace was skipped.",
+		Decides:     "Decides that the header naming the body's type/encoding and the codec/compressor that produced the body are chosen by the same value on every path, that response_body is resolved with its own selector against the reply type and applied on send, that offers come from the very codec map that is indexed, and that handler metadata cannot override Content-Type/Content-Encoding. Also: content negotiation selects an offer only where the Accept entry admits it, on every path; the reserved test sees the key in the table's case. Also: the Accept parser tests for ';', ',' and 'q=' on input whose optional whitespace was skipped. Also: the compressor that wraps the reply is the one registered under the announced Content-Encoding and no other (a variable shared with the request side is refused).",
 		NotDecided:  "negotiation results for concrete Accept strings; marshalled bytes; whether compression is ever offered.",
 		Assumptions: commonAssumptions,
 	})
@@ -41,22 +41,22 @@ func init() {
 	})
 	property(&Property{
 		ID:          "C06",
-		Rules:       []string{"ENCODER-CLOSE", "CARRY-OVER", "FRAME-AGREE", "READFULL-EOF", "FWD-CLOSESEND", "COMPRESS-FLAG", "READ-FAIL-NONNIL", "CLOSE-ONCE"},
-		Decides:     "Decides only three structural necessary conditions of 'no lost byte': the gRPC-web-text byte stream is terminated; bytes a stream codec read past the current message are saved on every path and handed to the next read; the gRPC frame writer and reader (and the gRPC-web trailer frame) agree on header length, offsets and byte order. Also: a proxied half-close is sent only after a clean inbound end; a gRPC message is decompressed iff its own flag byte is set; a failed transport read never yields a nil error. Also: the compressing writer is closed once per message (a second Close returns it to its pool twice and two streams share it).",
+		Rules:       []string{"ENCODER-CLOSE", "CARRY-OVER", "FRAME-AGREE", "READFULL-EOF", "FWD-CLOSESEND", "COMPRESS-FLAG", "READ-FAIL-NONNIL", "CLOSE-ONCE", "JSON-FRAME-TABLE"},
+		Decides:     "Decides only three structural necessary conditions of 'no lost byte': the gRPC-web-text byte stream is terminated; bytes a stream codec read past the current message are saved on every path and handed to the next read; the gRPC frame writer and reader (and the gRPC-web trailer frame) agree on header length, offsets and byte order. Also: a proxied half-close is sent only after a clean inbound end; a gRPC message is decompressed iff its own flag byte is set; a failed transport read never yields a nil error. Also: the compressing writer is closed once per message (a second Close returns it to its pool twice and two streams share it). Also: the JSON stream codec's framing decisions - where a message ends - follow JSON's lexical structure (JSON-FRAME-TABLE).",
 		NotDecided:  "and this is most of the property: sequence equality, fragmentation invariance, truncation behaviour, phantom/dropped messages at EOF, WebSocket end-of-stream.",
 		Assumptions: commonAssumptions,
 	})
 	property(&Property{
 		ID:          "C07",
-		Rules:       []string{"PARAM-ORDER", "LAST-WRITER", "DECODE-THEN-PARAMS", "FD-LOCALISER"},
-		Decides:     "Decides the precedence between the three input channels for singular fields, which is entirely structural: params.set is last-writer-wins, so the property holds iff path captures are applied after query parameters and after the body; every stream receives the composed list. Also: a path-bound value is written into the field with the stored descriptor's number/name on whichever backend handles the call (FD-LOCALISER).",
+		Rules:       []string{"PARAM-ORDER", "LAST-WRITER", "DECODE-THEN-PARAMS", "FD-LOCALISER", "PARAM-INDEPENDENT"},
+		Decides:     "Decides the precedence between the three input channels for singular fields, which is entirely structural: params.set is last-writer-wins, so the property holds iff path captures are applied after query parameters and after the body; every stream receives the composed list. Also: a path-bound value is written into the field with the stored descriptor's number/name on whichever backend handles the call (FD-LOCALISER). Also: every parameter is written along its own field path from the request message (nothing is carried over from the previous parameter).",
 		NotDecided:  "repeated path-bound fields (both channels append); protoreflect's Set itself.",
 		Assumptions: commonAssumptions,
 	})
 	property(&Property{
 		ID:          "C08",
-		Rules:       []string{"LIMIT-SRC", "LIMIT-STRICT", "LIMIT-IMPL", "LIMIT-DEFAULTS", "SIGNCONV", "OPTS-RO", "COMPRESS-FLAG"},
-		Decides:     "Decides that every way request bytes enter memory on a request-reachable path is bounded by the configured receive limit before use on every protocol (including after decompression and on WebSocket), that refusing comparisons are strict (a message exactly at the limit is accepted), that every in-repo stream codec honours its limit, that wire lengths cannot wrap through a sign-changing conversion, and that the limit in force is the configured one. Also: a LimitReader in front of a length check lets limit+1 bytes through; the gRPC send limit is compared with the encoded, not the compressed size. Also: a StreamCodec reports no length above the limit next to an error either.",
+		Rules:       []string{"LIMIT-SRC", "LIMIT-STRICT", "LIMIT-IMPL", "LIMIT-DEFAULTS", "SIGNCONV", "OPTS-RO", "COMPRESS-FLAG", "POOL-RESET"},
+		Decides:     "Decides that every way request bytes enter memory on a request-reachable path is bounded by the configured receive limit before use on every protocol (including after decompression and on WebSocket), that refusing comparisons are strict (a message exactly at the limit is accepted), that every in-repo stream codec honours its limit, that wire lengths cannot wrap through a sign-changing conversion, and that the limit in force is the configured one. Also: a LimitReader in front of a length check lets limit+1 bytes through; the gRPC send limit is compared with the encoded, not the compressed size. Also: a StreamCodec reports no length above the limit next to an error either. Also: stale bytes of a pooled (de)compression buffer cannot count against the limit (Reset after Get, or Reset before every Put).",
 		NotDecided:  "numeric boundary behaviour of library readers, memory use, user-supplied StreamCodecs.",
 		Assumptions: commonAssumptions,
 	})
@@ -69,15 +69,15 @@ func init() {
 	})
 	property(&Property{
 		ID:          "C10",
-		Rules:       []string{"FWD-MD", "FWD-CLOSESEND", "FWD-PAIR", "FWD-ERR-IDENTITY", "FWD-ERR-PROMPT", "DESC-ROLE", "ROLE-AGREE", "GO-SHARED", "IC-ONCE", "ESCAPE-SET", "TAIL-FLUSH", "FWD-EOF-FILTERED"},
-		Decides:     "Decides the forwarder's plumbing: the backend call carries the inbound metadata, method name and streaming shape; client half-close is forwarded; each inbound message is forwarded as received into a fresh message of the request type and replies are built from the reply type; backend errors are returned unmodified; the pump goroutine shares nothing unsynchronised and never touches the response side. Also: the stream-error filter sets aside only nil/io.EOF/context.Canceled; grpc-message escapes are % and two hex digits. Also: io.EOF made by a pump loop (the peer finished) is never returned to the front client as an error.",
+		Rules:       []string{"FWD-MD", "FWD-CLOSESEND", "FWD-PAIR", "FWD-ERR-IDENTITY", "FWD-ERR-PROMPT", "DESC-ROLE", "ROLE-AGREE", "GO-SHARED", "IC-ONCE", "ESCAPE-SET", "TAIL-FLUSH", "FWD-EOF-FILTERED", "MD-GATE-IN"},
+		Decides:     "Decides the forwarder's plumbing: the backend call carries the inbound metadata, method name and streaming shape; client half-close is forwarded; each inbound message is forwarded as received into a fresh message of the request type and replies are built from the reply type; backend errors are returned unmodified; the pump goroutine shares nothing unsynchronised and never touches the response side. Also: the stream-error filter sets aside only nil/io.EOF/context.Canceled; grpc-message escapes are % and two hex digits. Also: io.EOF made by a pump loop (the peer finished) is never returned to the front client as an error. Also: the incoming metadata that is forwarded withholds only an enumerated list of protocol keys (no prefix test).",
 		NotDecided:  "observational equivalence of transcripts; reflection-based descriptor discovery; response header metadata.",
 		Assumptions: commonAssumptions,
 	})
 	property(&Property{
 		ID:          "C11",
 		Rules:       []string{"WRITER-PUBLISHES", "ADD-REMOVE-SYMMETRY", "REMOVE-FILTER", "PICK-CURRENT", "COW-6", "STORED-SLICE-REUSE", "FD-LOCAL", "DELRULE-GUARD", "NIL-STATE", "DESC-BY-NAME", "COW-2", "HANDLERS-PRESENCE"},
-		Decides:     "Decides that every operation that changes the registration set publishes it, that removal empties what registration fills and keeps exactly the handlers of other connections, that dropping an unknown connection changes nothing, and that dispatch reads one current snapshot and answers Unimplemented exactly when no handler is left. Also: DropConn/registration never touch a nil snapshot; 'same method' is decided on full names, never on descriptor identity. Also: writers load the snapshot under the lock (no lost registration or drop); presence of a key in the handler table is trusted only if removal deletes emptied entries.",
+		Decides:     "Decides that every operation that changes the registration set publishes it, that removal empties what registration fills and keeps exactly the handlers of other connections, that dropping an unknown connection changes nothing, and that dispatch reads one current snapshot and answers Unimplemented exactly when no handler is left. Also: DropConn/registration never touch a nil snapshot; 'same method' is decided on full names, never on descriptor identity. Also: writers load the snapshot under the lock (no lost registration or drop); presence of a key in the handler table is trusted only if removal deletes emptied entries. Also: a connection leaves state.conns only through removeHandler, together with its handlers.",
 		NotDecided:  "behaviour over histories (stale routes answering Unimplemented, which backend answers).",
 		Assumptions: commonAssumptions,
 	})
@@ -98,7 +98,7 @@ func init() {
 	property(&Property{
 		ID:          "C14",
 		Rules:       []string{"MD-GATE-OUT", "MD-GATE-IN", "MD-RESERVED-TABLE", "BIN-PADDING", "IDENT-BRANCH", "TRAILER-PHASE", "STS-ROUTING", "WEB-TRAILER-FRAME", "MD-OWNED"},
-		Decides:     "Decides that every conversion between headers and metadata, in either direction, filters reserved keys and transforms '-bin' values, lower-cases keys and keeps all values; that the reserved set covers every key the transport itself writes on a response; that both base64 padding variants are accepted; that trailer-phase header writes can reach the wire; and that the ServerTransportStream wrapper routes header/trailer calls to the stream. Also: accumulated header/trailer metadata is never the handler's own map; the reserved test sees the key in the table's case.",
+		Decides:     "Decides that every conversion between headers and metadata, in either direction, filters reserved keys and transforms '-bin' values, lower-cases keys and keeps all values; that the reserved set covers every key the transport itself writes on a response; that both base64 padding variants are accepted; that trailer-phase header writes can reach the wire; and that the ServerTransportStream wrapper routes header/trailer calls to the stream. Also: accumulated header/trailer metadata is never the handler's own map; the reserved test sees the key in the table's case. Also: header/trailer metadata given in successive calls accumulates per key (Join/append, never MD.Set); the reserved request keys are an enumerated list.",
 		NotDecided:  "byte-exactness for arbitrary values, HTTP/2 header canonicalisation, WebSocket metadata.",
 		Assumptions: commonAssumptions,
 	})
@@ -111,29 +111,29 @@ func init() {
 	})
 	property(&Property{
 		ID:          "C16",
-		Rules:       []string{"PANIC-REACH-REG", "COMMAOK-REG", "TOKEN-KINDS", "COW-7", "COW-3", "COW-5", "SLOT-CHECK", "FIELDPATH-SINGULAR", "ADDITIONAL-BINDINGS", "NIL-STATE", "DESC-BY-NAME", "STORED-SLICE-REUSE"},
-		Decides:     "Decides the 'rejects ... with an error (never a panic) and leaves previously registered routes intact' half: no panic or unchecked comma-ok use is reachable from the registration roots, pattern tokens are validated, a failed registration publishes nothing and works on a private clone, a binding slot is written only after the conflict check, body/response_body selectors must name singular message fields, nested additional bindings are rejected before recursion. Also: registration on an empty Mux never dereferences the nil snapshot; re-registration of the same method from another descriptor instance is recognised by name. Also: a token or key slice kept by the trie (addVariable) is not re-used as an append buffer for the next variable of the template.",
+		Rules:       []string{"PANIC-REACH-REG", "COMMAOK-REG", "TOKEN-KINDS", "COW-7", "COW-3", "COW-5", "SLOT-CHECK", "FIELDPATH-SINGULAR", "ADDITIONAL-BINDINGS", "NIL-STATE", "DESC-BY-NAME", "STORED-SLICE-REUSE", "TOKEN-WIDTH"},
+		Decides:     "Decides the 'rejects ... with an error (never a panic) and leaves previously registered routes intact' half: no panic or unchecked comma-ok use is reachable from the registration roots, pattern tokens are validated, a failed registration publishes nothing and works on a private clone, a binding slot is written only after the conflict check, body/response_body selectors must name singular message fields, nested additional bindings are rejected before recursion. Also: registration on an empty Mux never dereferences the nil snapshot; re-registration of the same method from another descriptor instance is recognised by name. Also: a token or key slice kept by the trie (addVariable) is not re-used as an append buffer for the next variable of the template. Also: fixed-text tokens of the template lexer are exactly as wide as their text ('***' is not '**').",
 		NotDecided:  "the 'accepts every well-formed template' half (grammar conformance is value-level: e.g. one-letter literals are rejected today).",
 		Assumptions: commonAssumptions,
 	})
 	property(&Property{
 		ID:          "C17",
-		Rules:       []string{"LIMIT-IMPL", "LIMIT-STRICT", "SIGNCONV", "COMMAOK-SERVE", "READFULL-EOF", "SLICE-CAP", "READ-FAIL-NONNIL"},
-		Decides:     "Decides the limit-safe half: every in-repo ReadNext compares against its limit before it can return a message, strictly, and in a domain where the decoded length cannot wrap. Also: a failed transport read in RecvMsg returns a certainly non-nil error.",
-		NotDecided:  "fragmentation invariance and carry-over exactness - the other half of the property (value-level).",
+		Rules:       []string{"LIMIT-IMPL", "LIMIT-STRICT", "SIGNCONV", "COMMAOK-SERVE", "READFULL-EOF", "SLICE-CAP", "READ-FAIL-NONNIL", "JSON-FRAME-TABLE"},
+		Decides:     "Decides the limit-safe half: every in-repo ReadNext compares against its limit before it can return a message, strictly, and in a domain where the decoded length cannot wrap. Also: a failed transport read in RecvMsg returns a certainly non-nil error. Also: the JSON codec's scanner, as a transition table read off its loop body, agrees with JSON's lexical structure on every transition up to brace depth 4 (string start/end, backslash escapes, braces inside strings, message end exactly at the closing brace of depth 0, refusal of a surplus closing brace) and depends on nothing but its state and the current byte.",
+		NotDecided:  "invariance under where the reader splits the bytes (refill boundaries, carry-over exactness; the table rule assumes the current byte is buffered), the proto codec's varint handling beyond the limit/width checks, a JSON scanner that consumes more than one byte per iteration (reported undecided).",
 		Assumptions: commonAssumptions,
 	})
 	property(&Property{
 		ID:          "C18",
 		Rules:       []string{"STATS-PAIR", "STATS-ERR", "STATS-ORDER", "STATS-PURE", "NILABLE-FIELD", "IC-ONCE", "IC-PASSTHRU", "ROLE-AGREE", "STATS-PAYLOAD-EACH", "STATS-JOINED"},
-		Decides:     "Decides the exactly-once and pairing structure: each handler closure invokes the RPC through the configured interceptor exactly once and never directly; the nil-safe wrappers pass arguments and results through unchanged; streaming flags and method names agree with the descriptor; every Begin has exactly one End carrying the handler's error; events are ordered and share TagRPC's context; stats-only code cannot change or crash the RPC. Also: a closure that exists only with a stats handler assigns nothing the serve function reads outside stats-only code; a return whose error is not known non-nil counts as a success for the payload event. Also: every stream method that reports a stats event is joined (WaitGroup) before the serve function emits End.",
+		Decides:     "Decides the exactly-once and pairing structure: each handler closure invokes the RPC through the configured interceptor exactly once and never directly; the nil-safe wrappers pass arguments and results through unchanged; streaming flags and method names agree with the descriptor; every Begin has exactly one End carrying the handler's error; events are ordered and share TagRPC's context; stats-only code cannot change or crash the RPC. Also: a closure that exists only with a stats handler assigns nothing the serve function reads outside stats-only code; a return whose error is not known non-nil counts as a success for the payload event. Also: every stream method that reports a stats event is joined (WaitGroup) before the serve function emits End. Also: every invocation of the handler in a serve function feeds End.Error (no branch keeps the result to itself).",
 		NotDecided:  "one payload event per message (WebSocket and body-less requests emit none), event field values, user-supplied interceptors.",
 		Assumptions: commonAssumptions,
 	})
 	property(&Property{
 		ID:          "C19",
 		Rules:       []string{"SEL-KEY", "SEL-SAME-BINDER", "SEL-BUILD", "SEL-COLLECT", "HEALTH-TABLE", "SEL-INSERT", "HANDLERS-PRESENCE"},
-		Decides:     "Decides how selected rules are bound and the healthz table: rules are looked up by the method's full name, bound by the same addRule call as annotations, built from the service config's http rules; the healthz selectors name methods of the health service with the streaming shape their verb needs, at /v1/healthz, merged into the caller's config. Also: appendHandler cannot take a present-but-empty handler entry for 'already registered' and skip binding the selected rules.",
+		Decides:     "Decides how selected rules are bound and the healthz table: rules are looked up by the method's full name, bound by the same addRule call as annotations, built from the service config's http rules; the healthz selectors name methods of the health service with the streaming shape their verb needs, at /v1/healthz, merged into the caller's config. Also: appendHandler cannot take a present-but-empty handler entry for 'already registered' and skip binding the selected rules. Also: AddHealthz merges its literal rule list unfiltered.",
 		NotDecided:  "the iff: getRules/setRules are a string algorithm (an exact selector currently also matches longer names - value-level); health status reporting (upstream code).",
 		Assumptions: commonAssumptions,
 	})
